@@ -113,6 +113,18 @@ def step (st : St) (toks : List String) : St × String :=
             ({ st with strm := some s', nonce, pos := 0, skey }, s!"ok | {l2 s'}")
           | none => (st, "model-oob")
       | _, _ => (st, "skip")
+  | ["seek", nb] =>
+      -- White-box jump to block `nb` (> 0) of the current stream: the state that streaming 16·nb bytes would
+      -- have produced according to the proved invariant (`C02.counter_block_at_any_index`):
+      -- bytectr = 16·nb, counter field = be64(nb − 1).  Lets the correspondence reach 2^32 blocks and beyond.
+      match st.strm, nb.toNat? with
+      | some s, some (n+1) =>
+        match AesCtr.writeAt s.pblk 8 (AesCtr.be64enc (UInt64.ofNat n)) with
+        | some pblk =>
+          let s' := { s with bytectr := UInt64.ofNat (16 * (n + 1)), pblk := pblk }
+          ({ st with strm := some s', pos := 16 * (n + 1) }, s!"ok | {l2 s'}")
+        | none => (st, "model-oob")
+      | _, _ => (st, "skip")
   | "stream" :: d :: _ =>
       match st.strm, bytesOfHex d with
       | some s, some data =>
